@@ -14,7 +14,7 @@ EXTENDS Exact, FiniteSets, TLC, Json
 
 CONSTANTS NPops,     \* population sizes explored
           Alphas,    \* set of <<num, den>>
-          Lattice,   \* "full" | "small" | "tiny": size of the (box, mean, sd) lattice
+          Lattice,   \* "full" | "small" | "tiny": size of the (box, mean, sd) lattice; "edge": the boxes of EdgeBoxes
           Fits,      \* fitness classes
           NPats,     \* number of noise patterns used
           STOP,      \* "sampled": stop after cem_sample; "updated": whole iteration
@@ -54,18 +54,61 @@ TPats == << <<Q(3, 2), Q(-1, 1), Q(0, 1), Q(1, 2), Q(-7, 4), Q(5, 4)>>,
             <<Q(-7, 4), Q(7, 4), Q(-1, 2), Q(1, 1), Q(1, 4), Q(-3, 2)>>,
             <<Q(1, 4), Q(1, 2), Q(-1, 4), Q(-3, 4), Q(3, 4), Q(0, 1)>> >>
 
+(* Lattice "edge": legal but unusual boxes.  A bound may be infinite (a parameter bounded on *)
+(* one side only, or not at all): PInf / NInf, pairs with denominator 0 that only the        *)
+(* extended operators below may touch.  A box may be many orders of magnitude (2^20 .. 2^23  *)
+(* times) wider than the distance of the mean to its nearer face - on the small-magnitude    *)
+(* side every candidate is a float32 number (compared exactly), on the large-magnitude side  *)
+(* (mean one / three float32 steps below 4096) the exact candidate is emitted and the        *)
+(* implementation's single rounding of the final addition is allowed for (exact = FALSE).    *)
+(* upd: the box takes part in the whole iteration (cem_update compared exactly), with its     *)
+(* quarter-grained means.                                                                    *)
+PInf == <<1, 0>>
+NInf == <<-1, 0>>
+IsInf(x) == x[2] = 0
+Wide == 1048576     \* 2^20
+EdgeBoxes == {
+  [lb |-> Zero,      ub |-> PInf,    means |-> {Zero, Q(1, 4), One},              upd |-> TRUE,  exact |-> TRUE],
+  [lb |-> NInf,      ub |-> Half,    means |-> {Half, Q(1, 4), Q(-1, 2)},         upd |-> TRUE,  exact |-> TRUE],
+  [lb |-> NInf,      ub |-> PInf,    means |-> {Half},                            upd |-> TRUE,  exact |-> TRUE],
+  [lb |-> Zero,      ub |-> I(Wide), means |-> {Zero, Q(1, 64), Q(3, 64), Q(1, 4)}, upd |-> TRUE,  exact |-> TRUE],
+  [lb |-> I(-Wide),  ub |-> Zero,    means |-> {Q(-3, 64), Q(-1, 4)},             upd |-> TRUE,  exact |-> TRUE],
+  [lb |-> I(-1),     ub |-> I(Wide), means |-> {Q(-61, 64)},                      upd |-> TRUE,  exact |-> TRUE],
+  [lb |-> Zero,      ub |-> I(4096), means |-> {Q(8388607, 2048), Q(8388605, 2048)}, upd |-> FALSE, exact |-> FALSE],
+  [lb |-> I(-4096),  ub |-> Zero,    means |-> {Q(-8388607, 2048)},               upd |-> FALSE, exact |-> FALSE] }
+EdgeSds == {Q(1, 4), One}       \* with sd = 1 the distance to the nearer face is the active limit in every wide box
+
 ----------------------------------------------------------------------------
+(* arithmetic of the sampling path: every value is dyadic, so denominators divide one another *)
+(* and are aligned to the larger one (Exact.tla cross-multiplies them, which overflows TLC's   *)
+(* 32-bit integers for 2^-11-grained values next to 2^20); <= falls back to Exact's where      *)
+(* they do not (new means with n_elite = 3, 5, 6)                                             *)
+DCommon(a, b) == IF a[2] >= b[2] THEN a[2] ELSE b[2]
+DNum(a, c)    == a[1] * (c \div a[2])
+DAdd(a, b) == LET c == DCommon(a, b) IN Norm(DNum(a, c) + DNum(b, c), c)
+DSub(a, b) == LET c == DCommon(a, b) IN Norm(DNum(a, c) - DNum(b, c), c)
+FLe(a, b)  == IF a[2] % b[2] = 0 \/ b[2] % a[2] = 0
+              THEN LET c == DCommon(a, b) IN DNum(a, c) <= DNum(b, c)
+              ELSE QLe(a, b)
+(* extended: -inf <= everything <= +inf *)
+XLe(a, b)  == IF a = NInf \/ b = PInf THEN TRUE
+              ELSE IF a = PInf \/ b = NInf THEN FALSE ELSE FLe(a, b)
+XMin(a, b) == IF XLe(a, b) THEN a ELSE b
+XHalf(a)   == IF IsInf(a) THEN a ELSE QMul(Half, a)
+
 (* cem_sample *)
-LbDist(j) == QSub(dist.mean[j], dist.lb[j])
-UbDist(j) == QSub(dist.ub[j], dist.mean[j])
+LbDist(j) == IF IsInf(dist.lb[j]) THEN PInf ELSE DSub(dist.mean[j], dist.lb[j])     \* mean - (-inf) = +inf
+UbDist(j) == IF IsInf(dist.ub[j]) THEN PInf ELSE DSub(dist.ub[j], dist.mean[j])     \* (+inf) - mean = +inf
 Var(j)    == QSq(dist.sd[j])
-ConstrainedVar(j) == QMin(QMin(QSq(QMul(Half, LbDist(j))), QSq(QMul(Half, UbDist(j)))), Var(j))
+(* sqrt(min((lbd/2)^2, (ubd/2)^2, var)): the minimum of squares of non-negative numbers is the  *)
+(* square of their minimum, and its root that minimum - always finite, the variance is          *)
+ConstrainedSd(j)  == XMin(XMin(XHalf(LbDist(j)), XHalf(UbDist(j))), dist.sd[j])
+ConstrainedVar(j) == QSq(ConstrainedSd(j))
 UnconstrainedVar(j) == Var(j)
-(* exact square root: the minimum of squares of non-negative numbers *)
-SqrtOf(v, j) == CHOOSE s \in {dist.sd[j], QMul(Half, LbDist(j)), QMul(Half, UbDist(j))} : QEq(QSq(s), v)
+SqrtOf(v, j) == CHOOSE s \in {dist.sd[j], ConstrainedSd(j)} : QEq(QSq(s), v)
 SampleOf(i, j, constrained) ==
   LET cv == IF constrained THEN ConstrainedVar(j) ELSE UnconstrainedVar(j)
-  IN QAdd(QMul(tmat[i][j], SqrtOf(cv, j)), dist.mean[j])
+  IN DAdd(QMul(tmat[i][j], SqrtOf(cv, j)), dist.mean[j])
 
 (* cem_update *)
 N     == conf.n
@@ -88,9 +131,14 @@ SetToSeq(S) == [r \in 1..Cardinality(S) |-> CHOOSE i \in S : Cardinality({o \in 
 Outcome(E) == [elite |-> SetToSeq(E),
                mean |-> [j \in 1..D |-> NewMean(E, j)],
                var  |-> [j \in 1..D |-> NewVar(E, j)]]
-Vector == [n |-> N, ne |-> conf.ne, alpha |-> conf.alpha,
+InBox(x, j) == XLe(dist.lb[j], x) /\ XLe(x, dist.ub[j])
+(* inbox: the order predicate lb <= candidate <= ub per candidate and dimension, decided here *)
+VectorOf(smp) ==
+          [n |-> N, ne |-> conf.ne, alpha |-> conf.alpha,
            lb |-> dist.lb, ub |-> dist.ub, mean |-> dist.mean, var |-> [j \in 1..D |-> Var(j)],
-           t |-> tmat, samples |-> samples]
+           t |-> tmat, samples |-> smp, exact |-> dist.exact,
+           inbox |-> [i \in 1..Len(smp) |-> [j \in 1..D |-> InBox(smp[i][j], j)]]]
+Vector == VectorOf(samples)
 EmitVec(rec) == EMIT => PrintT(<<"EMIT", ToJson(rec)>>)
 
 ----------------------------------------------------------------------------
@@ -103,10 +151,16 @@ ChooseConfig == /\ stage = "config"
                 /\ UNCHANGED <<dist, tmat, samples, fitv>>
 
 ChooseDist == /\ stage = "dist"
-              /\ \E lb \in Lbs : \E ub \in Ubs : \E m \in Means(lb, ub) : \E sd \in Sds :
-                   /\ QLe(lb, m) /\ QLe(m, ub)
-                   /\ dist' = [lb |-> <<lb, Dim2.lb>>, ub |-> <<ub, Dim2.ub>>,
-                               mean |-> <<m, Dim2.mean>>, sd |-> <<sd, Dim2.sd>>]
+              /\ IF Lattice = "edge"
+                 THEN \E bx \in EdgeBoxes : \E m \in bx.means : \E sd \in EdgeSds :
+                        /\ STOP = "updated" => (bx.upd /\ m[2] <= 4)   \* quarter-grained means: the elite variance stays in 32 bits
+                        /\ XLe(bx.lb, m) /\ XLe(m, bx.ub)
+                        /\ dist' = [lb |-> <<bx.lb, Dim2.lb>>, ub |-> <<bx.ub, Dim2.ub>>,
+                                    mean |-> <<m, Dim2.mean>>, sd |-> <<sd, Dim2.sd>>, exact |-> bx.exact]
+                 ELSE \E lb \in Lbs : \E ub \in Ubs : \E m \in Means(lb, ub) : \E sd \in Sds :
+                        /\ QLe(lb, m) /\ QLe(m, ub)
+                        /\ dist' = [lb |-> <<lb, Dim2.lb>>, ub |-> <<ub, Dim2.ub>>,
+                                    mean |-> <<m, Dim2.mean>>, sd |-> <<sd, Dim2.sd>>, exact |-> TRUE]
               /\ stage' = "noise"
               /\ UNCHANGED <<conf, tmat, samples, fitv>>
 
@@ -121,7 +175,7 @@ SampleWith(constrained) ==
   /\ samples' = [i \in 1..conf.n |-> [j \in 1..D |-> SampleOf(i, j, constrained)]]
   /\ stage' = "sampled"
   /\ UNCHANGED <<conf, dist, tmat, fitv>>
-  /\ (STOP = "sampled") => EmitVec([Vector EXCEPT !.samples = samples'])
+  /\ (STOP = "sampled") => EmitVec(VectorOf(samples'))
 CemSample == SampleWith(TRUE)
 
 ChooseFitness == /\ stage = "sampled" /\ STOP = "updated"
@@ -143,15 +197,14 @@ Spec == Init /\ [][Next]_vars
 ----------------------------------------------------------------------------
 (* Properties (C16) *)
 Sampled == stage \in {"sampled", "fitness", "updated"}
-InBox(x, j) == QLe(dist.lb[j], x) /\ QLe(x, dist.ub[j])
 (* cem_sample only proposes candidates inside the box *)
 SamplesWithinBounds == Sampled => \A i \in 1..conf.n : \A j \in 1..D : InBox(samples[i][j], j)
 (* the constrained spread: two standard deviations reach at most the nearer face *)
 SpreadReachesNoFace ==
   stage \notin {"config", "dist"} =>
     \A j \in 1..D : LET s == SqrtOf(ConstrainedVar(j), j)
-                    IN /\ QLe(QMul(I(2), s), LbDist(j)) /\ QLe(QMul(I(2), s), UbDist(j))
-                       /\ QLe(s, dist.sd[j])
+                    IN /\ XLe(QMul(I(2), s), LbDist(j)) /\ XLe(QMul(I(2), s), UbDist(j))
+                       /\ XLe(s, dist.sd[j]) /\ ~IsInf(s) /\ XLe(Zero, s)
 Updated == stage \in {"fitness", "updated"}
 (* there always is an elite set; the implementation's tie-break is one of them *)
 ElitesExist == Updated => Admissible # {} /\ StableTop \in Admissible
